@@ -43,6 +43,9 @@ def run(chk):
     rd = tlc.new_rundir("C08")
     try:
         progcheck.run_plans(chk, rd, plans(chk.tier), OBS, opts={"no_compute": True}, selftest=_corrupt, accept_verdict=accept)
+        from ..modelcheck import add_models
+
+        add_models(chk, ['Optimizer:termination'])
         chk.cov["exhaustive"] = True
         chk.cov["rule"] = ("every collection of every enumerated behaviour of ArrayProgram.tla (corpora in parts) x chunk-grid variants: one "
                            "'optimize' observation (pass-by-pass root names, names after optimizing twice, exceptions, execution of the "
